@@ -352,6 +352,7 @@ class CSSPageRule(cssrule.CSSRuleRules):
                 # replaced margin rules are detached
                 for r in self.cssRules:
                     r._parentRule = None
+                    r._parent = None
                 self._selectorText = newselseq
                 self._specificity = specificity
                 self.style = newStyle
@@ -408,11 +409,15 @@ class CSSPageRule(cssrule.CSSRuleRules):
             a CSSStyleDeclaration or string
         """
         self._checkReadonly()
+        old = getattr(self, '_style', None)
         if isinstance(style, str):
             self._style = CSSStyleDeclaration(cssText=style, parentRule=self)
         else:
             style._parentRule = self
             self._style = style
+        if old is not None and old is not self._style:
+            # the replaced block is no part of this rule anymore
+            old._parentRule = None
 
     style = property(
         lambda self: self._style,
